@@ -32,7 +32,10 @@ fn templates(d: &str) -> Vec<Template> {
         Template { name: "file-name", pattern: format!("{}/arch.{{}}.log", d), expanded: format!("{}/arch.{{}}.log", d), gz: false },
         Template { name: "dir-component", pattern: format!("{}/sub{{}}/arch.log", d), expanded: format!("{}/sub{{}}/arch.log", d), gz: false },
         Template { name: "repeated", pattern: format!("{}/x{{}}/arch.{{}}.log", d), expanded: format!("{}/x{{}}/arch.{{}}.log", d), gz: false },
-        Template { name: "env", pattern: "$ENV{LV_FW_DIR}/env.{}.log".to_string(), expanded: format!("{}/e/env.{{}}.log", d), gz: false },
+        // the value of the variable contains the index placeholder itself: it is text, not a placeholder
+        Template { name: "env", pattern: "$ENV{LV_FW_DIR}/env.{}.log".to_string(), expanded: format!("{}/e{{}}x/env.{{}}.log", d), gz: false },
+        // the index completes the name of a variable (the placeholder is substituted first)
+        Template { name: "env-indexed", pattern: format!("{}/$ENV{{LV_FW_SLOT_{{}}}}.log", d), expanded: format!("{}/slot-{{}}-name.log", d), gz: false },
         Template { name: "gzip", pattern: format!("{}/gz.{{}}.log.gz", d), expanded: format!("{}/gz.{{}}.log.gz", d), gz: true },
     ]
 }
@@ -52,7 +55,16 @@ fn check_template(case: &Value, t: &Template, root: &Path, offset: i64) -> Optio
     let base = (case["base"].as_i64().unwrap() + offset) as u32;
     let count = case["count"].as_u64().unwrap() as u32;
     // the model is translation invariant in the index: `offset` moves the whole window (e.g. to the top of u32)
-    let name_of = |i: i64| t.expanded.replace("{}", &(i + offset).to_string());
+    // (in the "env" template the first {} of `expanded` is literal text that came out of a variable)
+    let name_of = |i: i64| {
+        let idx = (i + offset).to_string();
+        if t.name == "env" {
+            let (head, tail) = t.expanded.split_at(t.expanded.find("{}").unwrap() + 2);
+            format!("{}{}", head, tail.replace("{}", &idx))
+        } else {
+            t.expanded.replace("{}", &idx)
+        }
+    };
     let rel = |p: &str| Path::new(p).strip_prefix(root).unwrap().to_string_lossy().to_string();
     // initial directory
     for (i, c) in entries(&case["init"], lo) {
@@ -127,10 +139,14 @@ pub fn main(args: &[String]) {
     let mut res = vec![];
     let mut runs = 0;
     for (ci, case) in rows.iter().enumerate() {
-        for ti in 0..5 {
+        for ti in 0..6 {
             let s = Scratch::new("fw");
             let d = s.path().to_string_lossy().to_string();
-            std::env::set_var("LV_FW_DIR", format!("{}/e", d));
+            std::env::set_var("LV_FW_DIR", format!("{}/e{{}}x", d));
+            let (lo, cnt) = (case["lo"].as_i64().unwrap(), case["count"].as_i64().unwrap() + case["base"].as_i64().unwrap());
+            for i in (lo - 2).max(0)..=(cnt + 3) {
+                std::env::set_var(format!("LV_FW_SLOT_{}", i), format!("slot-{}-name", i));
+            }
             let ts = templates(&d);
             let t = &ts[ti];
             if case["kind"] == "delete" && ti > 0 {
